@@ -24,8 +24,12 @@ def oracle(case, db, rel, got, exp):
         return "auto-increment value(s) %s handed out more than once" % dup
     if proj != exp:
         return "tuples without the counter column differ from the reference model"
-    if len(got) != len(exp):
-        return "%d tuples for %d derivations" % (len(got), len(exp))
+    # one tuple per derivation (= satisfying assignment of the rule body), each with its own counter value
+    from .. import ref as _ref
+    full = {n: set(db.get(n, ())) for n in case.ref_prog.rels}
+    nder = sum(len(_ref.derive(r, full)) for r in case.ref_prog.rules)
+    if len(got) != nder:
+        return "%d tuples for %d derivations" % (len(got), nder)
     return None
 
 
